@@ -91,6 +91,13 @@ def enumerate_cases(tier):
         rec = pgen.make_table([1] * 24, None, ndata=3, header="explicit", nrow=nrow, rel_widths=rel, shared=shared)
         rec["strategy"] = "plain"
         yield rec
+    # large body fonts: short texts (few characters) that wrap only because of the type size, narrow columns
+    for size, ndata, glyph, nrow in itertools.product((14, 18, 24, 30), (2, 3, 5), ("normal", "wide"), (8, 12)):
+        n = 18
+        rec = pgen.make_table([2 if i % 3 else 1 for i in range(n)], None, ndata=ndata, header="explicit", nrow=nrow, sizes=[size] * ndata,
+                              glyphs=[glyph])
+        rec["strategy"] = "plain"
+        yield rec
     # a header label of 2 / 3 lines in each column of a 1-4 column table, pages filled exactly
     for ndata, k, nrow in itertools.product((1, 2, 3, 4), (2, 3), (6, 9)):
         for col in range(ndata):
